@@ -65,12 +65,14 @@ DecodeBody(K, t) == DecodeFrom(K, t, 1)
 
 \* a complete literal: quoted (quote body quote) or bare.  Under conditional quoting (K.cq: only values with a blank
 \* are quoted) a bare word ends at a blank, so a blank inside a bare literal is not part of it.
+\* white space (what the configuration's pattern \s stands for)
+IsBlankChar(c) == c \in {9, 10, 11, 12, 13, 28, 29, 30, 31, 32, 133, 160, 5760, 8232, 8233, 8239, 8287, 12288} \/ (c >= 8192 /\ c <= 8202)
 QuotedForm(K, t) == K.quote # NONE /\ Len(t) >= 2 /\ t[1] = K.quote /\ t[Len(t)] = K.quote
 DecodeLiteral(K, t) ==
     IF QuotedForm(K, t) THEN DecodeBody(K, Slice(t, 2, Len(t) - 1))
-    ELSE IF K.cq /\ (\E i \in 1..Len(t) : t[i] = 32) THEN <<BAD>>
+    ELSE IF K.cq /\ (\E i \in 1..Len(t) : IsBlankChar(t[i])) THEN <<BAD>>
     ELSE DecodeBody(K, t)
-HasBlank(p) == \E i \in 1..Len(p) : p[i] = 32
+HasBlank(p) == \E i \in 1..Len(p) : IsBlankChar(p[i])
 \* is the literal of value p to be quoted under K?
 MustQuote(K, p) == K.quote # NONE /\ (~K.cq \/ HasBlank(p))
 
